@@ -34,24 +34,61 @@ Definition rich_ctx (ps : list rport) (q : string) : ctx :=
 Definition all_unavail (ks : list kind) : bool :=
   match ks with [] => false | _ => forallb (fun k => kind_eqb k KUnavail) ks end.
 
-(* port q, enabled, carrying value expression e: holds the coerced value of e over the current values, and is unavailable
-   when e is unavailable; nothing is said when the evaluation fails otherwise *)
-Definition follows (ps : list rport) (q : string) (e : expr) : bool :=
+(* the context BasePort.transform_and_write_value builds for the write transform: only the own port, holding the value to write *)
+Definition transform_ctx (q : string) (v : option pyval) : ctx :=
+  {| port_values := [(q, v)]; ports := [(q, true)]; now_ms := 0; self_id := Some q; self_last := v; transform_role := true |}.
+
+(* what the port must hold when the (coerced) expression value is a (None = unavailable):
+   Some (Some x) = exactly x;  Some None = unavailable;  None = nothing is said (the transform or a coercion fails) *)
+Definition expected_held (k : pkind) (q : string) (tw : option expr) (a : option pyval) : option (option pyval) :=
+  match tw with
+  | None => Some a
+  | Some t =>
+      match sem (transform_ctx q a) t with
+      | Val w => match adapt k w with Some x => Some (Some x) | None => None end
+      | Fail ks => if all_unavail ks then Some None else None
+      | Ref _ => None
+      end
+  end.
+
+Definition holds (last want : option pyval) : bool :=
+  match last, want with
+  | Some l, Some w => py_eq l w
+  | None, None => true
+  | _, _ => false
+  end.
+
+(* port q, enabled, carrying value expression e (and possibly a write transform): holds the coerced value of e over the current
+   values passed through the write transform and coerced again, and is unavailable when that is unavailable; nothing is said
+   when an evaluation or coercion fails otherwise.  With a write transform the hub's "unchanged" short-cut compares the
+   untransformed value with what the port holds (known finding F13, reported by the first stream): a port that holds exactly
+   the untransformed value is therefore not judged here. *)
+Definition follows (ps : list rport) (q : string) (e : expr) (tw : option expr) : bool :=
   match rfind q ps with
   | Some p =>
       if negb (ren p) then true else
+      let judge (a : option pyval) :=
+        (* SelfPortValue falls back to the port's live last value when the value handed to the transform is falsy (0, false,
+           unavailable): what the transform then yields depends on the history, not on the state at rest - not judged *)
+        let history_dependent := match tw, a with
+                                 | Some _, None => true
+                                 | Some _, Some x => negb (py_truth x)
+                                 | None, _ => false
+                                 end in
+        if history_dependent then true else
+        match expected_held (rkind p) q tw a with
+        | None => true
+        | Some want => holds (rlast p) want || match tw with Some _ => holds (rlast p) a | None => false end
+        end in
       match sem (rich_ctx ps q) e with
-      | Val v => match adapt (rkind p) v with
-                 | Some w => match rlast p with Some l => py_eq l w | None => false end
-                 | None => true
-                 end
-      | Fail ks => if all_unavail ks then match rlast p with None => true | Some _ => false end else true
+      | Val v => match adapt (rkind p) v with Some w => judge (Some w) | None => true end
+      | Fail ks => if all_unavail ks then judge None else true
       | Ref _ => true
       end
   | None => true
   end.
 
-Definition rich_case (c : list rport * list (string * expr)) : bool :=
-  let '(ps, exprs) := c in forallb (fun qe => follows ps (fst qe) (snd qe)) exprs.
+Definition rich_case (c : list rport * list (string * expr * option expr)) : bool :=
+  let '(ps, exprs) := c in forallb (fun qe => follows ps (fst (fst qe)) (snd (fst qe)) (snd qe)) exprs.
 
-Definition bad_rich (cases : list (list rport * list (string * expr))) : list nat := mismatches rich_case cases 0.
+Definition bad_rich (cases : list (list rport * list (string * expr * option expr))) : list nat := mismatches rich_case cases 0.
